@@ -171,6 +171,12 @@ def run(ctx):
             E = np.array([[rng.uniform(pts[0, 0], pts[-1, 0]), rng.uniform(0, 1)] for _ in range(ne)])
         if len(E) + len(K) > n:
             E = E[: max(1, n - len(K))]
+        if rng.random() < 0.3:
+            # magnitude variants (tiny scale, large common offset): the tolerance is t TIMES THE X RANGE, never an absolute quantity
+            kind = rng.choice(gen.MAG_KINDS)
+            p2, e2 = gen.magnitude_of(kind, pts), gen.magnitude_of(kind, E)
+            if np.all(np.diff(p2[:, 0]) > 0):
+                pts, E, fam = p2, e2, fam + '@' + kind
         dxx = float(pts[-1, 0] - pts[0, 0])
         if rng.random() < 0.4:
             kx = pts[K][:, 0]
